@@ -258,3 +258,32 @@ Theorem json_text_tag_keys_unique_partial : forall pp bt banned post c,
   NoDup (map (fun e => json_quote (fst e)) (c_tags c)).
 Proof. exact json_text_tag_keys_unique_lemma. Qed.
 Print Assumptions json_text_tag_keys_unique_partial.
+
+(* ================= no response code and no request is exempt from having a body =================
+   bodies_present (above) says it for every response r of an accepted catalog, with no condition on
+   r_code r.  The same read at the last stage (validate = validateCatalog without the schema-content
+   checks; build ends with it): a catalog under construction holding a response - of whatever code - or
+   a request without body descriptor is not validated.  proofs/CatalogMoreProofs.v *)
+From JV.proofs Require Import ContentProofs FaithfulExamples CatalogMoreProofs.
+
+Theorem response_without_body_not_validated : forall c0 i h r,
+  In (i, IHttp h) (c_inters c0) -> In r (hi_responses h) -> r_body r = None ->
+  forall c, validate c0 <> COk c.
+Proof. exact bodiless_response_not_validated. Qed.
+Print Assumptions response_without_body_not_validated.
+
+Theorem request_without_body_not_validated : forall c0 i h rq,
+  In (i, IHttp h) (c_inters c0) -> hi_request h = Some rq -> q_body rq = None ->
+  forall c, validate c0 <> COk c.
+Proof. exact bodiless_request_not_validated. Qed.
+Print Assumptions request_without_body_not_validated.
+
+(* example: JSIGHT 0.3 / GET /x { 204 } - a no-content code with nothing said about the body - is rejected
+   with "undefined response body" at the 204 directive (offset 22); "204 empty" is accepted *)
+Theorem no_content_code_not_exempt_example :
+  (exists e, ex_build (ex_204_forest []) = CErr e /\ ce_kind e = CEMsg "undefined response body"%string /\ ce_idx e = 22) /\
+  (exists c, ex_build (ex_204_forest [("SchemaNotation", "empty")%string]) = COk c /\
+     map (fun e => (iid_string (fst e), cview (snd e))) (c_inters c) =
+       [(bs "http GET /x", cvx None None false [(bs "204", [])] false false)]).
+Proof. exact no_content_code_example. Qed.
+Print Assumptions no_content_code_not_exempt_example.
